@@ -730,7 +730,7 @@ def build(rec, seed):
     return obj, None
 
 
-def call_once(obj, method, a, kw, limit=5):
+def call_once(obj, method, a, kw, limit=2):
     """returns outcome, and the list of mutated argument descriptions"""
     names = ['arg%d' % i for i in range(len(a))] + list(kw)
     vals = list(a) + [kw[k] for k in kw]
@@ -815,6 +815,9 @@ def run_case(key, seed, tmap=None, fresh_only=False):
     r1, mut = call_once(shared, method, a1, kw1)
     for m in mut:
         problems.append(('mutation', 'probe call after %d earlier calls changed its argument %s' % (n_hist + len(variants[:3]), m)))
+    if r1 == ('err', 'TIMEOUT'):
+        # some evaluators do not return on some inputs (DESIGN.md 2.1): an outcome of its own, nothing to compare
+        return dict(problems=problems, fresh=r1, after=r1, ok=False, random=bool(flags.get('random')), timeout=True)
     a2, kw2 = probe()
     r2, _ = call_once(shared, method, a2, kw2)
     r0, mut = fresh_answer()
